@@ -41,10 +41,11 @@ type memConn struct {
 	t0           time.Time
 	armsTaken    int
 	writeDelay   time.Duration // the peer drains slowly: every Write blocks this long before its bytes are taken
+	resetAfter   int64         // >= 0: the peer resets the connection once it has received this many bytes in total (-1: never)
 }
 
 func newMemConn(id int, remote net.Addr) *memConn {
-	c := &memConn{id: id, remote: remote, local: &net.TCPAddr{IP: net.IPv4(127, 0, 0, 1), Port: 38008}, t0: time.Now()}
+	c := &memConn{id: id, resetAfter: -1, remote: remote, local: &net.TCPAddr{IP: net.IPv4(127, 0, 0, 1), Port: 38008}, t0: time.Now()}
 	c.cond = sync.NewCond(&c.mu)
 	return c
 }
@@ -103,10 +104,29 @@ func (c *memConn) Write(p []byte) (int, error) {
 	if c.clientReset {
 		return 0, errConnReset
 	}
+	if c.resetAfter >= 0 && c.written+int64(len(p)) > c.resetAfter {
+		// the peer goes away in the middle of this write: a part is taken, then the connection is reset
+		k := int(c.resetAfter - c.written)
+		if k < 0 {
+			k = 0
+		}
+		c.out = append(c.out, p[:k]...)
+		c.written += int64(k)
+		c.clientReset = true
+		c.cond.Broadcast()
+		return k, errConnReset
+	}
 	c.out = append(c.out, p...)
 	c.written += int64(len(p))
 	c.cond.Broadcast()
 	return len(p), nil
+}
+
+// ArmReset: the client will reset the connection after receiving k more bytes.
+func (c *memConn) ArmReset(k int64) {
+	c.mu.Lock()
+	c.resetAfter = c.written + k
+	c.mu.Unlock()
 }
 
 func (c *memConn) Close() error {
